@@ -45,4 +45,35 @@ PROPS = {
             "same model and stream as C11; the harness dumps the complete parameter vector (not only expected keys), and fails if the fallback carries parameters",
         ],
     },
+    'C01': {
+        'streams': ['parse', 'grammar'],
+        'shrink': {'parse': 'hex'},
+        'assumptions': [
+            "checked-semantics model: every index/slice/usize subtraction/from_utf8_unchecked/read_unaligned site of the parser is a Fault in the model where Rust would panic, read out of bounds or build a non-ASCII &str; C01_total says no input reaches one",
+            "memory safety of the real code is observed, not proved: each input is parsed flush against PROT_NONE guard pages on both sides, under catch_unwind, and every returned &str is re-validated",
+            "little-endian 64-bit target (asserted by the harness); memchr modelled as find_index",
+        ],
+    },
+    'C02': {
+        'streams': ['grammar'],
+        'shrink': {},
+        'assumptions': [
+            "the grammar is rfc_head (Spec/HttpGrammar.v): alphabetic method, RFC 3986 character classes per target form, token names, OWS, field values without CR/LF; Content-Length fields must be valid and agree (cl_consistent), otherwise RFC 9112 6.3 makes the head invalid",
+        ],
+    },
+    'C03': {
+        'streams': ['prefix', 'readloop'],
+        'shrink': {'prefix': 'hex'},
+        'assumptions': [
+            "error kinds other than 'incomplete' are one class (the server answers 400 to all of them)",
+            "the server's and client's read loops re-parse the whole prefix after each read (modelled by reparse); the size limit is C10's concern",
+        ],
+    },
+    'C04': {
+        'streams': ['parse'],
+        'shrink': {'parse': 'hex'},
+        'assumptions': [
+            "strict_head allows any byte except LF inside a field value (the property constrains line structure, names, method and target, not value bytes); the reported value has leading ASCII whitespace removed",
+        ],
+    },
 }
